@@ -65,5 +65,24 @@ Definition analyze_ok (d : list Qspace) (specs : list spec) (keep : bool) (f : f
   | _, _ => false
   end.
 
+(* a whole history of calls: the i-th observation is compared with the pure model of the i-th call *)
+Definition result_ok (m obs : option (list Qspace * fval Qc)) : bool :=
+  match m, obs with
+  | None, None => true
+  | Some (d1, FReal a), Some (d2, FReal b) => dom_eq d1 d2 && close_list b a
+  | Some (d1, FCplx a1 a2), Some (d2, FCplx b1 b2) => dom_eq d1 d2 && close_list b1 a1 && close_list b2 a2
+  | _, _ => false
+  end.
+Fixpoint results_ok (ms obs : list (option (list Qspace * fval Qc))) : bool :=
+  match ms, obs with
+  | [], [] => true
+  | m :: ms', o :: obs' => result_ok m o && results_ok ms' obs'
+  | _, _ => false
+  end.
+Definition q_history := analyze_history Qc 0%Qc 1%Qc Qcplus Qcmult Qcinv.
+Definition history_ok (calls : list (acall Qc)) (obs : list (option (list Qspace * fval Qc))) : bool :=
+  results_ok (q_history calls) obs.
+Definition acall_of (d : list Qspace) (specs : list spec) (keep : bool) (f : fval Qc) : acall Qc := (d, (specs, (keep, f))).
+
 Definition fre (l : list Q) : fval Qc := FReal (qcs l).
 Definition fcx (re im : list Q) : fval Qc := FCplx (qcs re) (qcs im).
